@@ -14,8 +14,11 @@ def run(ctx):
     # the series-representation simulator of a two-dimensional Levy copula process
     ctx.design("MC_Series", "Series_quick.cfg", constants="24 affine streams x Poisson counts 0..3 x 0..3 x 4 date sets", coverage=False)
     ts = ctx.trace_path("series")
-    ctx.drive("series_run", [ts, ctx.tier, ctx.seed])
+    td = ctx.trace_path("dates")
+    ctx.drive("series_run", [ts, ctx.tier, ctx.seed, td])
     ctx.validate("Trace_Series", "Trace_Series.cfg", ts)
+    # the observation dates the products hand to the simulators (spot; Asian of every discretisation)
+    ctx.validate("Trace_Dates", "Trace_Dates.cfg", td)
     ctx.assumptions += [
         "random sources are scripted (jump counts, jump times, jump sizes / state increments, the j-th normal increment is j)",
         "times are multiples of 1/8, product-date gaps perfect squares, sizes multiples of the lattice unit: all values exact",
